@@ -263,6 +263,36 @@ fn forward<T: Fl + Send + Sync>(out: &mut Out, sp: &Space<T>, n_hues: usize, g: 
     let hues = hue_list(sp, n_hues);
     out.count_n(&format!("cls:hues:{}:{}", sp.name, T::TAG), hues.len() as u64);
     for acc in parallel(&hues, threads, |c| forward_chunk(sp, c, g, stride)) { acc.merge_into(out); }
+    // the neighbourhoods of the six chromatic corners of the cube, where the gamut surface has its tips: hue within ±0.3° and the
+    // lightness-like component within ±0.2 % of its range of the corner's own, saturation-like component at its bound and just below
+    let tol = tol_of::<T>(sp.kind);
+    let mut acc = Acc::default();
+    let mut worst = f64::NEG_INFINITY;
+    for m in 1..7u32 {
+        let c = [if m & 1 != 0 { 1.0 } else { 0.0 }, if m & 2 != 0 { 1.0 } else { 0.0 }, if m & 4 != 0 { 1.0 } else { 0.0 }];
+        let (x0, _) = (sp.from_rgb[0])(arr_of(c), &mut None);
+        if !x0.iter().all(|v| v.finite()) { continue; }
+        let x0 = to64(&x0);
+        for ih in -15..=15 { for ib in -40..=40 { for a_scale in [1.0, 1.0 - 1e-3] {
+            let h = x0[0] + ih as f64 * 0.02;
+            let a = (x0[1] * a_scale).clamp(0.0, sp.scale);
+            let b = (x0[2] + ib as f64 * 5e-5 * sp.scale).clamp(0.0, sp.scale);
+            if sp.hwb && !(a + b <= sp.scale) { continue; }
+            let x: [T; 3] = [T::of(h), T::of(a), T::of(b)];
+            let x64 = to64(&x);
+            if known_fwd(sp, &x64).is_some() || (sp.name == "Okhsl" && x64[2] < 1.0 && x64[2] > 1.0 - T::eps()) { continue; }
+            for t in 0..2 {
+                let (rgb, _) = (sp.to_rgb[t])(x, &mut None);
+                let r64 = to64(&rgb);
+                let ex = if sp.kind == Kind::Hex { excess(&r64) } else { excess(&lin_of(t, &r64)) };
+                if ex > worst || ex.is_nan() { worst = ex; }
+                acc.check(ex <= tol, &format!("gamut-near-corner:{}->{}:{}", sp.name, TARGETS[t], T::TAG), || format!("{}{:?} (next to the cube corner {:?}) -> {} {:?} (excess {:e}, tolerance {:e})", sp.name, x, c, TARGETS[t], rgb, ex, tol));
+            }
+        } } }
+        acc.count(&format!("cls:corner-neighbourhood:{}:{}", sp.name, T::TAG));
+    }
+    if worst != f64::NEG_INFINITY { acc.maxi(&format!("gamut-excess-near-corner:{}:{}", sp.name, T::TAG), worst); }
+    acc.merge_into(out);
 }
 
 // ------------------------------------------------------------------------------------------------------------------- converse (b)
@@ -394,6 +424,15 @@ fn reverse<T: Fl + Send + Sync>(out: &mut Out, sp: &Space<T>, srcs: &[[f64; 3]],
     let tiny = T::of(0.0).nudge(1).to64();
     let norm = if T::TAG == "f32" { f32::MIN_POSITIVE as f64 } else { f64::MIN_POSITIVE };
     for hi in [[1.0, p1], [1.0, p2], [p1, p2], [0.0, tiny], [0.0, norm], [tiny, norm], [1.0, tiny], [p1, 0.0]] { for m in 1..7u32 { all.push([hi[(m & 1) as usize], hi[((m >> 1) & 1) as usize], hi[((m >> 2) & 1) as usize]]); } }
+    // two components a few ulps of T apart (the hue of such a colour is a tiny positive or negative angle next to a sector edge, which the
+    // unsigned normal form rounds to exactly 0 or 360), in every order and with the third component above, between and below
+    for &(y, z) in &[(0.25f64, 0.5f64), (0.5, 0.25), (0.25, 0.75), (0.0, 1.0), (1.0, 0.0), (0.999, 0.001), (0.4, 0.4000001)] {
+        for k in [1i64, -1, 2, -3] {
+            let y2 = T::of(y).nudge(k).to64();
+            if !(0.0..=1.0).contains(&y2) { continue; }
+            for perm in 0..6 { let v = [z, y, y2]; let p = [[0, 1, 2], [0, 2, 1], [1, 0, 2], [1, 2, 0], [2, 0, 1], [2, 1, 0]][perm]; all.push([v[p[0]], v[p[1]], v[p[2]]]); }
+        }
+    }
     let items: Vec<(usize, [f64; 3])> = all.into_iter().enumerate().collect();
     for acc in parallel(&items, threads, |c| reverse_chunk(sp, c, stride)) { acc.merge_into(out); }
 }
